@@ -152,6 +152,12 @@ func (s *Session) String() string {
 //  4. If bad cmd, respond error
 //  5. Goto 2
 func (s *Server) startSession(id int, conn net.Conn, logger zerolog.Logger) {
+	s.wg.Add(1)
+	s.runSession(id, conn, logger)
+}
+
+// runSession runs a session that has already been registered with the wait group.
+func (s *Server) runSession(id int, conn net.Conn, logger zerolog.Logger) {
 	verifSessionSpawned()
 	logger = logger.Hook(logHook{}).With().
 		Str("module", "smtp").
@@ -159,8 +165,7 @@ func (s *Server) startSession(id int, conn net.Conn, logger zerolog.Logger) {
 		Int("session", id).Logger()
 	logger.Info().Msg("Starting SMTP session")
 
-	// Update WaitGroup and counters.
-	s.wg.Add(1)
+	// Update counters.
 	expConnectsCurrent.Add(1)
 	expConnectsTotal.Add(1)
 	defer func() {
